@@ -5,7 +5,7 @@ dst=/verif/seeded/$pid-$name
 rm -rf "$wt"; git -C /repo worktree add -q --detach "$wt" HEAD || exit 2
 cd "$wt" || exit 2
 mkdir -p seeded_out && cp "$src"/*.py seeded_out/ 2>/dev/null
-run() { PYTHONPATH=$wt /venv/bin/python -W ignore "$@"; }
+run() { PYTHONPATH=$wt /venv/bin/python -W ignore::SyntaxWarning -W ignore::DeprecationWarning "$@"; }
 run seeded_out/demo_$v.py >/tmp/sc_$pid$v.clean 2>&1; rc_clean=$?
 git apply "$src/$v.diff" || { echo "APPLY FAILED"; git -C /repo worktree remove --force "$wt"; exit 2; }
 run seeded_out/demo_$v.py >/tmp/sc_$pid$v.mut 2>&1; rc_mut=$?
